@@ -5,6 +5,7 @@ use crate::common::*;
 use crate::regdump::{self, Dump, Reading};
 use engine::util::{hash64, Fams};
 use engine::{CaseOut, Meta, Space};
+use num_traits::ToPrimitive;
 use rink_core::types::Number;
 use rink_core::Context;
 use serde_json::json;
@@ -19,7 +20,7 @@ pub fn currency_ctx() -> Context {
 }
 
 /// Pool of deliberately colliding definitions for the sub-database sweep.
-const POOL: [&str; 11] = [
+const POOL: [&str; 12] = [
     "s !second",
     "m !meter",
     "milli- 1e-3",
@@ -33,11 +34,16 @@ const POOL: [&str; 11] = [
     // a quantity that shares its name with a unit (as `force` and `jerk` do in the bundled file) and
     // whose definition is a bare name: canonicalisation must keep following the *unit's* definition
     "min ? s",
+    // an exact name that is also the long-prefix spelling of a short-prefix + unit reading:
+    // `mmin` reads as m + min, and its canonical spelling `millimin` must not be this unit
+    "millimin 5 m",
 ];
 /// Always loaded.  The last entry is a substance that is rejected half-way (its second property
 /// is malformed) after a first property whose names collide with pool units: nothing of a
 /// rejected definition may influence what a name denotes afterwards.
 const EXTRA: [&str; 4] = ["in 0.0254 m", "n 5 m", "n ? m", "junk {\n  ms const min 3 m\n  broken const y 1 nothing_defined\n}"];
+/// (name, expression in query syntax) of the definition that is loaded as a parsed entry.
+const CALL_DEF: (&str, &str) = ("a_half", "sqrt(900 min^2)");
 const QP: [&str; 5] = ["", "m", "milli", "k", "mi"];
 const QU: [&str; 10] = ["s", "second", "m", "meter", "min", "in", "ms", "ks", "mins", "n"];
 
@@ -250,7 +256,7 @@ impl Space for C07 {
         Meta {
             id: "C07",
             level: "exploration",
-            rule: "every string prefix+name[+s] over all prefixes (and none) x all unit and base-unit names of the bundled database, with and without the currency overlay, looked up through Context::lookup on two independent loads and compared with an independent resolver over the registry dump (exact, else any valid prefix split, else plural); lookup(canonicalize(n)) must equal lookup(n). Plus all 2^11 sub-databases of a pool of colliding definitions (incl. quantities named like units) x 100 concatenated query names; plus load histories on one Context: a 10-line base database followed by every subset of 7 redefinitions (aliases re-pointed, values changed, prefixes changed) as a second file, and every ordered pair of them as a second and third file, x 64 names each. Non-trivial = the name has at least one reading or rink resolves it; distinct by (config, name)".into(),
+            rule: "every string prefix+name[+s] over all prefixes (and none) x all unit and base-unit names of the bundled database, with and without the currency overlay, looked up through Context::lookup on two independent loads and compared with an independent resolver over the registry dump (exact, else any valid prefix split, else plural); lookup(canonicalize(n)) must equal lookup(n). Plus all 2^12 sub-databases of a pool of colliding definitions (incl. quantities named like units) x 100 concatenated query names, each loaded together with one entry parsed by the query parser (`a_half = sqrt(900 min^2)`, the way JSON currency data arrives) whose value must be 30 x whatever `min` denotes exact-first; plus load histories on one Context: a 10-line base database followed by every subset of 7 redefinitions (aliases re-pointed, values changed, prefixes changed) as a second file, and every ordered pair of them as a second and third file, x 64 names each. Non-trivial = the name has at least one reading or rink resolves it; distinct by (config, name)".into(),
             assumptions: vec![
                 "the statement does not rank competing prefix splits: any valid split is accepted, determinism pins the choice".into(),
                 "the registry dump gives each exact name's value".into(),
@@ -367,16 +373,48 @@ impl Space for C07 {
                     text.push('\n');
                 }
             }
+            // One more definition arrives the way currency data does: as an already parsed entry
+            // whose expression comes from the *query* parser and so can contain a function call.  Its
+            // name sorts first; the names inside the call must be resolved like anywhere else.
             let load = || {
+                use rink_core::ast::{Def, DefEntry, Defs, ExprString};
+                use rink_core::parsing::text_query;
                 let mut c = Context::new();
                 c.use_humanize = false;
-                let _ = c.load_definitions(&text); // dangling references are reported; whatever loaded is the database
+                let mut defs = rink_core::loader::gnu_units::parse_str(&text).defs;
+                let mut it = text_query::TokenIterator::new(CALL_DEF.1).peekable();
+                let expr = text_query::parse_expr(&mut it);
+                defs.push(DefEntry::new(CALL_DEF.0, None, None, Def::Unit { expr: ExprString(expr) }));
+                let _ = c.load(Defs { defs }); // dangling references are reported; whatever loaded is the database
                 c
             };
             let a = load();
             let dump = regdump::dump(&a);
             let l = Loaded { a, b: load(), dump };
             let mut out = CaseOut::ok("sub-database").key(hash64(&text));
+            {
+                // sqrt(900 x^2) = 30 x (as a float).  Judged when `min` is defined exactly: that
+                // definition is what the name must denote inside the call as well, however the
+                // entries are ordered internally; with only prefix/plural readings (which may
+                // depend on definitions that failed to load) the entry is not judged.
+                let readings = l.dump.resolve("min");
+                let got = l.a.lookup(CALL_DEF.0);
+                if let Some(r) = readings.first().filter(|r| r.how == "exact") {
+                    let want = r.value.as_ref().and_then(|v| v.to_f64()).unwrap_or(r.fvalue) * 30.0;
+                    match &got {
+                        None => out = out.viol("definition through a function call did not load although its operand is defined exactly", format!("[{}] `{} = {}`", text.replace('\n', "; "), CALL_DEF.0, CALL_DEF.1)),
+                        Some(g) => {
+                            let gv = g.value.to_f64();
+                            if dims_of(g) != r.dims || !((gv - want).abs() <= 1e-9 * want.abs()) {
+                                out = out.viol(
+                                    "a name inside a function call was not resolved exact-first while loading",
+                                    format!("[{}] `{} = {}` is {:?} but `min` is defined exactly as {} {}", text.replace('\n', "; "), CALL_DEF.0, CALL_DEF.1, g, want / 30.0, dims_str(&r.dims)),
+                                );
+                            }
+                        }
+                    }
+                }
+            }
             let mut n = 0;
             for p in QP {
                 for u in QU {
